@@ -4,14 +4,14 @@
 
    Fragment proved here ([frag], [class_frag], [canon]): Number/Integer/Float/String/Boolean with any
    constraints, Enum over literals, Enum over an enum class by name and by value (members of falsy value included),
-   Array/Deque/Set of the fragment, Tuple (positional, or homogeneous of any length) of plain scalars, Map from plain scalars to
+   Array/Deque/Set of the fragment, Tuple (positional, or homogeneous of any length) of the fragment, Map from plain scalars to
    the fragment, nested structures to any depth,
    AnyOf/Optional over ARBITRARY options holding a value of an option of the fragment that distinguishes the
    options (every earlier option rejects the value on the way out and its document on the way in, with whatever
    exception), classes with and without _ignore_none / _additional_properties / defaults / __validate__ hooks,
    compact single-field wrappers; instances whose attributes are declared fields listed in declaration order
    (instance.__dict__ order is not observable).
-   Outside [frag] (ImmutableSet, Tuple of non-scalars, positional Array items, Anything, DecimalNumber, date/time
+   Outside [frag] (ImmutableSet, positional Array items, Anything, DecimalNumber, date/time
    fields) the executable model
    and/or the differential on the implementation apply, and the full statement is in fact FALSE there
    (C05_refuted_required_none, and the defects listed in known_findings.json). *)
@@ -184,6 +184,8 @@ Definition cls_Outer : classdef :=
                   fdecl_ "t" tup_or_arr None;
                   fdecl_ "st" (FSet false (Some int_) no_sizec) None;
                   fdecl_ "tp" (FTuple [int_; FString no_strc] false) None;
+                  fdecl_ "te" (FTuple [colorv; FSeqEach SeqDeque int_ no_sizec false] false) None;
+                  fdecl_ "th" (FTuple [priov] false) None;
                   fdecl_ "b" FBoolean (Some (PBool false))];
      c_required := [s2p "n"; s2p "c"]; c_additional := true; c_ignore_none := false; c_immutable := false;
      c_hook := HookNeverNone (s2p "xs") |}.
@@ -201,6 +203,8 @@ Definition ex_x : pyval :=
       (s2p "t", PList [PNum (NInt 0)]);
       (s2p "st", PSet false [PNum (NInt 0); PNum (NInt 1)]);
       (s2p "tp", PTuple [PNum (NInt 0); PStr []]);
+      (s2p "te", PTuple [PEnum (s2p "ColorV") (s2p "BLUE") (PStr (s2p "b")); PDeque [PNum (NInt 0)]]);
+      (s2p "th", PTuple [PEnum (s2p "PrioV") (s2p "NONE") (PNum (NInt 0)); PEnum (s2p "PrioV") (s2p "LOW") (PNum (NInt 1))]);
       (s2p "b", PBool false) ].
 Definition ex_w : pyval := PStruct (s2p "Wrap") [(s2p "p", PEnum (s2p "PrioV") (s2p "NONE") (PNum (NInt 0)))].
 
@@ -215,6 +219,8 @@ Example C05_nonvacuous :
                 (PStr (s2p "t"), PList [PNum (NInt 0)]);
                 (PStr (s2p "st"), PList [PNum (NInt 0); PNum (NInt 1)]);
                 (PStr (s2p "tp"), PList [PNum (NInt 0); PStr []]);
+                (PStr (s2p "te"), PList [PStr (s2p "b"); PList [PNum (NInt 0)]]);
+                (PStr (s2p "th"), PList [PNum (NInt 0); PNum (NInt 1)]);
                 (PStr (s2p "b"), PBool false) ]) /\
   (forall j, serialize (fun _ _ => true) ex_env ex_ens 2 false ex_x = Ok j ->
              deserialize (fun _ _ => true) ex_env ex_ens ex_fl 2 None (s2p "Outer") j = Ok ex_x) /\
@@ -268,7 +274,20 @@ Proof.
     + (* Tuple[Integer, String] holding (0, "") *)
       eexists. split; [reflexivity|]. split; [|reflexivity].
       cbn [wfv fd_field fdecl_ snd int_]. exists [PNum (NInt 0); PStr []]. split; [reflexivity|].
-      cbn [tuple_wf]. unfold wfv_plain. repeat split; try (vm_compute; reflexivity); try discriminate. constructor.
+      cbn [tuple_wf tuple_pos_wf wfv]. repeat split; try (vm_compute; reflexivity); try discriminate. constructor.
+    + (* Tuple[Enum[ColorV], Deque[Integer]] holding (BLUE, deque([0])): the elements are serialized by their item fields *)
+      eexists. split; [reflexivity|]. split; [|reflexivity].
+      cbn [wfv fd_field fdecl_ snd colorv int_]. eexists. split; [reflexivity|].
+      cbn [tuple_wf tuple_pos_wf wfv]. split; [|split; [|constructor]].
+      * exists (s2p "BLUE"), (PStr (s2p "b")). repeat split; vm_compute; reflexivity.
+      * exists [PNum (NInt 0)]. split; [reflexivity|].
+        repeat constructor; try (vm_compute; reflexivity); discriminate.
+    + (* Tuple[Enum[PrioV]] (homogeneous) holding (NONE, LOW) *)
+      eexists. split; [reflexivity|]. split; [|reflexivity].
+      cbn [wfv fd_field fdecl_ snd priov]. eexists. split; [reflexivity|].
+      cbn [tuple_wf]. repeat constructor.
+      * exists (s2p "NONE"), (PNum (NInt 0)). repeat split; vm_compute; reflexivity.
+      * exists (s2p "LOW"), (PNum (NInt 1)). repeat split; vm_compute; reflexivity.
     + eexists. split; [reflexivity|]. split; [|reflexivity].
       cbn [wfv fd_field fdecl_ snd]. repeat split; try (vm_compute; reflexivity); discriminate.
   - vm_compute. reflexivity.
